@@ -1,5 +1,6 @@
 import S2T.Lemmas.Iface
 import S2T.Gen.Iface
+import S2T.Props.C04_Src
 /-!
 # C04 — every result honours the common interface, for any input
 
